@@ -1215,9 +1215,13 @@ func representableConst(c constant.Value, t reflect.Type) bool {
 		}
 		switch t.Kind() {
 		case reflect.Int, reflect.Int8, reflect.Int16, reflect.Int32, reflect.Int64:
-			if _, ok := constant.Int64Val(x); !ok {
+			i, ok := constant.Int64Val(x)
+			if !ok {
 				return false
 			}
+			// A signed type of n bits holds values from -2^(n-1) to 2^(n-1)-1.
+			s := uint(bitlen[t.Kind()] - 1)
+			return s == 63 || i >= -1<<s && i < 1<<s
 		case reflect.Uint, reflect.Uint8, reflect.Uint16, reflect.Uint32, reflect.Uint64, reflect.Uintptr:
 			if _, ok := constant.Uint64Val(x); !ok {
 				return false
